@@ -271,7 +271,7 @@ func TestVerifC12(t *testing.T) {
 	}
 	logger := c12bLogger()
 	const alnum = "0123456789abcdefghijklmnopqrstuvwxyz"
-	n := run.N(6000, 120000)
+	n := run.N(4000, 80000)
 	run.Cases("balancer", n, func(i int, rng *verifkit.Rand) {
 		// ---------------- generate
 		c := &c12bCase{Hash: rng.Hex(32), Size: rng.Range(1, 1<<26), Devices: rng.Bool()}
